@@ -71,7 +71,7 @@ type Partition struct {
 	// OpenTxnFrom > 0: a transaction is open from this offset on, the last stable offset is this and not End
 	OpenTxnFrom int64
 	// Aborted: aborted transactions (producer id, first offset) reported to read_committed consumers with every fetch
-	Aborted [][2]int64
+	Aborted  [][2]int64
 	encCache map[encKey][]byte
 }
 
@@ -118,16 +118,16 @@ type Action struct {
 	// ErrorSkipFirst (OffsetCommit): the code is reported for (and keeps the broker from applying) every partition entry
 	// of a topic except the first one: a refusal that concerns some partitions of a request only.
 	ErrorSkipFirst bool
-	Chunk           int    // deliver the response in reads of at most Chunk bytes
-	Hold            <-chan struct{}
-	Mutate          func(body map[string]any) // last-minute change of the response body
-	BeforeRespond   func()                    // called after applying, before writing
-	CorrOverride    *int32
-	RawResponse     []byte // send these bytes instead of the encoded response
+	Chunk          int // deliver the response in reads of at most Chunk bytes
+	Hold           <-chan struct{}
+	Mutate         func(body map[string]any) // last-minute change of the response body
+	BeforeRespond  func()                    // called after applying, before writing
+	CorrOverride   *int32
+	RawResponse    []byte // send these bytes instead of the encoded response
 	// MutateFrame: last-minute change of the encoded response frame (fields = the reference encoder's map of its length
 	// and count fields); the frame that is returned is sent as is.
 	MutateFrame func(frame []byte, fields []refcodec.LenField) []byte
-	Tag             string // free-form, copied into the journal
+	Tag         string // free-form, copied into the journal
 }
 
 // Exchange is the journal record of one request.
